@@ -9,6 +9,10 @@ import (
 	"testing"
 	"time"
 
+	"strings"
+
+	"github.com/zishang520/engine.io/v2/config"
+	"github.com/zishang520/engine.io/v2/engine"
 	"github.com/zishang520/engine.io/v2/types"
 )
 
@@ -23,9 +27,12 @@ func init() {
 //  - C11: two writers of one HttpContext: exactly one response goes out.
 //  - C17: concurrent CORS preflights with different origins through one policy:
 //    every response names its own request's origin, or none.
+//  - C03: an application Close(true) and a close cause from the peer arriving together on fresh
+//    sessions: the session ends closed, with exactly one close event.
 func famRace(t *testing.T, r *Rec) {
 	raceHttpContext(r)
 	raceCors(r)
+	raceCloseCauses(r)
 }
 
 type gateRW struct {
@@ -135,6 +142,69 @@ func raceCors(r *Rec) {
 		if b := bad.Load(); b != nil {
 			r.Violate("C17", "C17/cors/concurrent-requests/other-origin/"+c.name, "under concurrent requests through one policy: "+b.(string),
 				[]string{"race cors " + c.name + ": 8 goroutines, requests with allowed and refused origins interleaved"})
+		}
+	}
+}
+
+func raceCloseCauses(r *Rec) {
+	pairs := 400
+	if r.thorough() {
+		pairs = 20000
+	}
+	opts := &config.ServerOptions{}
+	opts.SetPingInterval(25 * time.Second)
+	opts.SetPingTimeout(20 * time.Second)
+	srv := engine.NewServer(opts)
+	defer srv.Close()
+	socks := make(chan engine.Socket, 1)
+	srv.On("connection", func(a ...any) { socks <- a[0].(engine.Socket) })
+	for _, peer := range []string{"close-packet", "overlapping-poll"} {
+		bad := ""
+		for i := 0; i < pairs && bad == ""; i++ {
+			rec := httptest.NewRecorder()
+			srv.ServeHTTP(rec, httptest.NewRequest("GET", "/engine.io/?transport=polling&EIO=4", nil))
+			var so engine.Socket
+			select {
+			case so = <-socks:
+			case <-time.After(5 * time.Second):
+				bad = "handshake produced no session"
+				continue
+			}
+			var closes atomic.Int32
+			so.On("close", func(...any) { closes.Add(1) })
+			u := "/engine.io/?transport=polling&EIO=4&sid=" + so.Id()
+			var pending *httptest.ResponseRecorder
+			if peer == "overlapping-poll" {
+				pending = httptest.NewRecorder()
+				go srv.ServeHTTP(pending, httptest.NewRequest("GET", u, nil))
+				for k := 0; k < 2000 && !so.Transport().Writable(); k++ {
+					time.Sleep(50 * time.Microsecond)
+				}
+			}
+			var wg sync.WaitGroup
+			wg.Add(2)
+			go func() { defer wg.Done(); so.Close(true) }()
+			go func() {
+				defer wg.Done()
+				if peer == "close-packet" {
+					srv.ServeHTTP(httptest.NewRecorder(), httptest.NewRequest("POST", u, strings.NewReader("1")))
+				} else {
+					srv.ServeHTTP(httptest.NewRecorder(), httptest.NewRequest("GET", u, nil))
+				}
+			}()
+			wg.Wait()
+			for k := 0; k < 200 && so.ReadyState() != "closed"; k++ {
+				time.Sleep(100 * time.Microsecond)
+			}
+			if st, n := so.ReadyState(), closes.Load(); st != "closed" || n != 1 {
+				bad = fmt.Sprintf("pair %d: the session is %s with %d close events", i, st, n)
+			}
+		}
+		r.scenarios++
+		r.Cover("race/close-causes/" + peer)
+		if bad != "" {
+			r.Violate("C03", "C03/race/close1-x-"+peer, "Close(true) together with a "+peer+" from the peer: "+bad,
+				[]string{"race close-causes " + peer + ": fresh polling sessions, Close(true) and the peer's cause on two goroutines"})
 		}
 	}
 }
